@@ -9,6 +9,7 @@
   fact breaks exactly the theorems that depend on it.
 -/
 import GIV.Lemmas.TxtarQuote
+import GIV.Lemmas.TxtarCRLF
 
 namespace GIV.C03
 open GIV GIV.Txtar
@@ -96,7 +97,18 @@ theorem marker_crlf : ∀ (body : Bytes), body.getLast? ≠ some CR →
   have : FLit := ⟨rfl, rfl⟩
   fun body h => marker_crlf_nl body h
 
+example : (lit "-- a --").getLast? ≠ some CR := by decide +kernel
 example : markerName ⟨lit "-- a --" ++ [CR], true⟩ = some (lit "a") := by decide +kernel
+
+/-- Observable form: turning the LF of a marker line (anywhere in an archive: after a prefix
+`pre` of whole lines, before any `rest`) into CRLF does not change what `Parse` returns. -/
+theorem parse_marker_crlf : ∀ (pre body rest : Bytes), (pre = [] ∨ pre.getLast? = some NL) →
+    NL ∉ body → body.getLast? ≠ some CR → IsMarkerLine ⟨body, true⟩ →
+    parse (pre ++ (body ++ CR :: NL :: rest)) = parse (pre ++ (body ++ NL :: rest)) :=
+  have : FLit := ⟨rfl, rfl⟩
+  fun _ _ rest hpre hb hcr hm => Txtar.parse_marker_crlf rest hpre hb hcr hm
+
+example : IsMarkerLine ⟨lit "--  a b  --", true⟩ := ⟨lit "a b", by decide +kernel, by decide +kernel⟩
 
 /-- The same at end of input, where the final newline is missing ("considered present"). -/
 theorem marker_crlf_eof : ∀ (body : Bytes) (nl : Bool), body.getLast? ≠ some CR →
